@@ -151,3 +151,143 @@ Proof.
   intros H. unfold molecules_m. assert (L: length (zseq 0 N) = Z.to_nat N) by (unfold zseq; rewrite map_length, seq_length; reflexivity).
   apply mols_perm; rewrite L; lia.
 Qed.
+
+(* ---------------- molecules are closed under bonding: bonded atoms share a molecule ---------------- *)
+Definition nb (b : list (Z * Z * vec)) (a : Z) : list Z := map fst (get_linked b a).
+Lemma nb_spec b a l : In l (nb b a) <-> exists x y c, In (x, y, c) b /\ ((x = a /\ y = l) \/ (x <> a /\ y = a /\ x = l)).
+Proof.
+  unfold nb, get_linked. rewrite in_map_iff. split.
+  - intros ([l' cl] & E & I). cbn in E. subst l'. apply in_flat_map in I. destruct I as ([[x y] c] & IB & I).
+    exists x, y, c. split; [exact IB|]. destruct (Z.eqb_spec x a) as [E1|N1].
+    + destruct I as [E|[]]. inversion E; subst. left. tauto.
+    + destruct (Z.eqb_spec y a) as [E2|N2]; [|destruct I]. destruct I as [E|[]]. inversion E; subst. right. tauto.
+  - intros (x & y & c & IB & H). destruct H as [[E1 E2]|[N1 [E2 E3]]]; subst.
+    + exists (l, c). split; [reflexivity|]. apply in_flat_map. exists (a, l, c). split; [exact IB|]. rewrite Z.eqb_refl. left. reflexivity.
+    + exists (l, vneg c). split; [reflexivity|]. apply in_flat_map. exists (l, a, c). split; [exact IB|].
+      destruct (Z.eqb_spec l a) as [E|_]; [contradiction|]. rewrite Z.eqb_refl. left. reflexivity.
+Qed.
+Lemma nb_sym b a l : In l (nb b a) -> In a (nb b l).
+Proof.
+  rewrite !nb_spec. intros (x & y & c & IB & H). exists x, y, c. split; [exact IB|]. destruct H as [[E1 E2]|[N1 [E2 E3]]]; subst.
+  - destruct (Z.eq_dec a l) as [E|N]; [subst; left; tauto|right; tauto].
+  - left. tauto.
+Qed.
+
+Lemma visit_grows c1 q u l : let '(q', u') := visit c1 (q, u) l in
+  (forall x, In x (qat q) -> In x (qat q')) /\ (In (fst l) u -> In (fst l) (qat q')) /\ (forall x, In x u -> In x (qat q') \/ In x u').
+Proof.
+  unfold visit. destruct l as [a cl]. cbn [fst]. destruct (memz a u) eqn:M.
+  - split; [intros x I; unfold qat; rewrite map_app; apply in_or_app; left; exact I|]. split.
+    + intros _. unfold qat. rewrite map_app. apply in_or_app. right. left. reflexivity.
+    + intros x I. destruct (Z.eq_dec x a) as [E|N]; [subst; left; unfold qat; rewrite map_app; apply in_or_app; right; left; reflexivity|].
+      right. clear M. induction u as [|y t IH]; [destruct I|]. cbn [remove1z]. destruct (Z.eqb_spec a y) as [E|NE].
+      * subst. destruct I as [E|I]; [congruence|exact I].
+      * destruct I as [E|I]; [left; exact E|right; apply IH; exact I].
+  - split; [tauto|]. split; [|tauto]. intros I. apply memz_In in I. congruence.
+Qed.
+Lemma fold_visit_grows c1 links : forall q u, let '(q', u') := fold_left (visit c1) links (q, u) in
+  (forall x, In x (qat q) -> In x (qat q')) /\ (forall l, In l (map fst links) -> In l u -> In l (qat q')) /\ (forall x, In x u -> In x (qat q') \/ In x u').
+Proof.
+  induction links as [|l t IH]; intros q u; cbn [fold_left map]; [split; [tauto|split; [intros l []|tauto]]|].
+  pose proof (visit_grows c1 q u l) as V. destruct (visit c1 (q, u) l) as [q1 u1]. specialize (IH q1 u1).
+  destruct (fold_left (visit c1) t (q1, u1)) as [q' u']. destruct V as (V1 & V2 & V3). destruct IH as (I1 & I2 & I3). split; [|split].
+  - intros x I. apply I1, V1, I.
+  - intros l0 [E|I] Iu.
+    + subst. apply I1, V2, Iu.
+    + destruct (V3 l0 Iu) as [Q|Q]; [apply I1; exact Q|apply I2; assumption].
+  - intros x I. destruct (V3 x I) as [Q|Q]; [left; apply I1; exact Q|apply I3; exact Q].
+Qed.
+
+Section Closure.
+Variable b : list (Z * Z * vec).
+Variable U : list Z.
+Hypothesis NDU : NoDup U.
+Hypothesis ENDS : forall x y c, In (x, y, c) b -> In x U /\ In y U.
+Definition closed (S : list Z) : Prop := forall x, In x S -> forall l, In l (nb b x) -> In l S.
+
+Lemma nb_in_U a l : In l (nb b a) -> In l U.
+Proof. rewrite nb_spec. intros (x & y & c & IB & H). destruct (ENDS x y c IB) as [Hx Hy]. destruct H as [[E1 E2]|[N1 [E2 E3]]]; subst; assumption. Qed.
+
+Lemma bfs_closed Done : closed Done -> forall fuel queue unsorted acc, (length queue + length unsorted <= fuel)%nat ->
+  Permutation (Done ++ atoms_of acc ++ qat queue ++ unsorted) U ->
+  (forall x, In x (atoms_of acc) -> forall l, In l (nb b x) -> In l (atoms_of acc ++ qat queue)) ->
+  let '(m, u') := bfs fuel b queue unsorted acc in closed (atoms_of m).
+Proof.
+  intros CD. induction fuel as [|f IH]; intros queue unsorted acc H P INV; cbn [bfs].
+  - destruct queue; [|cbn in H; lia]. intros x I l Il. specialize (INV x I l Il). cbn [qat map] in INV. rewrite app_nil_r in INV. exact INV.
+  - destruct queue as [|[a1 c1] q].
+    + intros x I l Il. specialize (INV x I l Il). cbn [qat map] in INV. rewrite app_nil_r in INV. exact INV.
+    + pose proof (fold_visit_perm c1 (get_linked b a1) q unsorted) as FP. pose proof (fold_visit_grows c1 (get_linked b a1) q unsorted) as FG.
+      destruct (fold_left (visit c1) (get_linked b a1) (q, unsorted)) as [q' u'] eqn:EF. destruct FP as [FP FL]. destruct FG as (G1 & G2 & G3).
+      assert (LEN: (length q' + length u' = length q + length unsorted)%nat).
+      { apply Permutation_length in FP. unfold qat in FP. rewrite !app_length, !map_length in FP. exact FP. }
+      apply IH.
+      * cbn [length] in H. lia.
+      * eapply Permutation_trans; [|exact P]. apply Permutation_app_head. unfold atoms_of. rewrite map_app, <- app_assoc. apply Permutation_app_head.
+        cbn [map fst app qat]. apply perm_skip. exact FP.
+      * intros x I l Il. unfold atoms_of in I. rewrite map_app in I. apply in_app_or in I. unfold atoms_of. rewrite map_app, <- app_assoc. cbn [map fst app].
+        destruct I as [I|[E|[]]].
+        -- specialize (INV x I l Il). apply in_app_or in INV. destruct INV as [Q|Q]; [apply in_or_app; left; exact Q|].
+           apply in_or_app. right. destruct Q as [E|Q]; [left; exact E|right; apply G1; exact Q].
+        -- cbn in E. subst x. pose proof (nb_in_U a1 l Il) as LU.
+           apply (Permutation_in l (Permutation_sym P)) in LU. apply in_app_or in LU. destruct LU as [LD|LU].
+           { (* l in an earlier molecule: then a1 would be there too *)
+             exfalso. pose proof (CD l LD a1 (nb_sym b a1 l Il)) as A1D.
+             pose proof (Permutation_NoDup (Permutation_sym P) NDU) as ND.
+             clear - A1D ND. induction Done as [|d D IHD]; [destruct A1D|]. cbn [app] in ND. inversion ND; subst. destruct A1D as [E|I].
+             - subst. apply H1. apply in_or_app. right. apply in_or_app. right. left. reflexivity.
+             - apply IHD; assumption. }
+           apply in_app_or in LU. destruct LU as [LA|LU]; [apply in_or_app; left; exact LA|]. apply in_or_app. right.
+           apply in_app_or in LU. destruct LU as [LQ|LUN].
+           { destruct LQ as [E|LQ]; [left; exact E|right; apply G1; exact LQ]. }
+           right. apply G2; [exact Il|exact LUN].
+Qed.
+End Closure.
+
+Section Closure2.
+Variable b : list (Z * Z * vec).
+Variable U : list Z.
+Hypothesis NDU : NoDup U.
+Hypothesis ENDS : forall x y c, In (x, y, c) b -> In x U /\ In y U.
+
+Lemma closed_app A B : closed b A -> closed b B -> closed b (A ++ B).
+Proof. intros CA CB x I l Il. apply in_app_or in I. apply in_or_app. destruct I as [I|I]; [left; apply (CA x I l Il)|right; apply (CB x I l Il)]. Qed.
+
+Lemma mols_closed n : forall fuel unsorted Done, closed b Done -> Permutation (Done ++ unsorted) U ->
+  (length unsorted <= fuel)%nat -> (length unsorted <= n)%nat ->
+  forall m, In m (mols fuel n b unsorted) -> closed b (atoms_of m).
+Proof.
+  induction fuel as [|f IH]; intros unsorted Done CD P H Hn m I; cbn [mols] in I; [destruct I|].
+  destruct unsorted as [|a u]; [destruct I|].
+  pose proof (bfs_perm b n [(a, (0,0,0))] u [] ltac:(cbn [length] in *; lia)) as BP.
+  pose proof (bfs_closed b U NDU ENDS Done CD n [(a, (0,0,0))] u [] ltac:(cbn [length] in *; lia)) as BC.
+  destruct (bfs n b [(a, (0,0,0))] u []) as [m0 u'] eqn:EB. destruct BP as [BP BL].
+  assert (C0: closed b (atoms_of m0)).
+  { apply BC; [cbn [atoms_of map app qat fst]; exact P|intros x []]. }
+  destruct I as [E|I]; [subst; exact C0|].
+  assert (LU: (length u' <= length u)%nat).
+  { apply Permutation_length in BP. unfold atoms_of, qat in BP. rewrite !app_length, !map_length in BP. cbn [length] in BP, BL. unfold molrec in *. lia. }
+  apply (IH u' (Done ++ atoms_of m0)); try assumption.
+  - apply closed_app; assumption.
+  - rewrite <- app_assoc. eapply Permutation_trans; [apply Permutation_app_head; exact BP|]. cbn [atoms_of map app qat fst]. exact P.
+  - cbn [length] in *; lia.
+  - cbn [length] in *; lia.
+Qed.
+End Closure2.
+
+(* bonded atoms share a molecule *)
+Lemma molecules_closed_l N b : 0 <= N -> (forall x y c, In (x, y, c) b -> 0 <= x < N /\ 0 <= y < N) ->
+  forall m, In m (molecules_m N b) -> forall x y c, In (x, y, c) b -> (In x (atoms_of m) <-> In y (atoms_of m)).
+Proof.
+  intros HN HE m I x y c IB.
+  assert (NDU: NoDup (zseq 0 N)).
+  { unfold zseq. apply FinFun.Injective_map_NoDup; [intros p q E; lia|apply seq_NoDup]. }
+  assert (ENDS: forall x y c, In (x, y, c) b -> In x (zseq 0 N) /\ In y (zseq 0 N)).
+  { intros x0 y0 c0 I0. destruct (HE x0 y0 c0 I0). split; apply zseq_In; lia. }
+  assert (L: length (zseq 0 N) = Z.to_nat N) by (unfold zseq; rewrite map_length, seq_length; reflexivity).
+  assert (C: closed b (atoms_of m)).
+  { apply (mols_closed b (zseq 0 N) NDU ENDS (S (Z.to_nat N)) (S (Z.to_nat N)) (zseq 0 N) []); try (rewrite L; lia); [intros z []|apply Permutation_refl|exact I]. }
+  split; intros Ix.
+  - apply (C x Ix). apply nb_spec. exists x, y, c. split; [exact IB|left; tauto].
+  - apply (C y Ix). apply nb_sym. apply nb_spec. exists x, y, c. split; [exact IB|left; tauto].
+Qed.
